@@ -324,6 +324,17 @@ func tamperOps() []tamperOp {
 			return nb
 		}})
 	}
+	// an empty block (the header carries no transaction commitment) delivered with transactions
+	ops = append(ops, tamperOp{name: "Body/transactions-on-an-empty-block", empty: true, f: func(c *tamperCtx) *types.Block {
+		nb := cloneBlock(c.b)
+		a := c.w.pickActor(c.r, func(a *Actor, _ stateIdentity) bool { return c.w.Balance(a.Addr).Cmp(Dna(5)) > 0 })
+		if a == nil {
+			return nil
+		}
+		to := c.w.God.Addr
+		nb.Body.Transactions = append(nb.Body.Transactions, SignedTx(a, types.SendTx, &to, Dna(1), Dna(2), nil, c.w.StateNonce(a), c.victim.AppState.State.Epoch(), nil))
+		return nb
+	}})
 	// the seed and its proof taken as a pair from an earlier block of the SAME proposer (a valid VRF
 	// output of that key, but over another parent seed / height)
 	ops = append(ops, tamperOp{name: "Seed/pair-replayed-from-earlier-block-of-the-proposer", prop: true, f: func(c *tamperCtx) *types.Block {
